@@ -16,6 +16,14 @@ deleted afterwards), all VIOLATION with a shrunk replay, quick tier, seed 0:
   M12 docids() cached on (indexed_count, not_indexed_count)
 and the seeded changes C02_B (demotion to Set on unindex keeps working on the detached TreeSet; needs a posting
 that was promoted) and C02_F (applyEq hands the bare keyword to apply(): a tuple / bytes keyword is taken as a list).
+
+Round 4: "an iterable of keywords" - applyAny/applyAll/applyNotAny/applyNotAll, any()/all()/notany()/notall() and
+apply() (bare and {'query': ..}) get the keywords as list, tuple, set, frozenset, dict keys view, generator, iterator
+or map object, chosen by a hash of the command (props/c01.as_iterable); measured quick seed 0: of 163,000 such
+arguments list 18%, set 21% (the empty argument always hashes to set), generator 11%, iterator 10%, map 9%, tuple 10%,
+frozenset 10%, dict keys 10%.  Seeded C02_G (search(.., 'and') walks the query twice: a one-shot iterable is
+exhausted by the pre-check) was missed before and is caught now; one more of the class, VIOLATION on quick seed 0 in
+C02 and C13:  B  search() validates the keywords in a first pass over the query (both operators).
 """
 import importlib
 
@@ -46,7 +54,8 @@ RULE = ("small mode (84%): histories of 5-60 (thorough: up to 400) index_doc/rei
         "strings incl. () (iterable keywords), bytes incl. b'', num (1 == 1.0 == True etc. are ONE keyword whose "
         "spellings take turns; huge, negative, +-inf), 120 ints / 120 strings. After each op with prob. 1/4 and at "
         "the end Eq/NotEq/Any/NotAny/All/NotAll via index.applyX and via index.X(..).execute() with present/"
-        "absent/repeated keywords and the empty list; KeywordIndex.apply() itself with a list, a tuple, {'query': "
+        "absent/repeated keywords and the empty list, the argument handed over as list / tuple / set / frozenset / dict "
+        "keys view / generator / iterator / map (hash of the command); KeywordIndex.apply() itself with a list, a tuple, {'query': "
         "..} with operator and/or/absent, a bare string; the enumeration tuple (sometimes twice in a row); both "
         "BTrees families; list, tuple and set values; attribute and callable discriminators; occasionally the "
         "posting representations are compared too. non-trivial = the answers contain at least one non-empty and "
@@ -136,7 +145,7 @@ def gen_apply(rng, used, cur, npool, vtype):
         return ["qa", "s" if vtype in ("str", "widestr") and rng.random() < 0.6 else "l", "eq", q[1]]
     if q[0] == "any":
         return ["qa", "do", "any"] + q[1:]
-    return ["qa", rng.choice(["l", "t", "d", "da"]), "all"] + q[1:]
+    return ["qa", rng.choice(["l", "t", "i", "d", "da"]), "all"] + q[1:]
 
 
 def gen_queries(rng, used, cur, npool, vtype, cmds, k):
@@ -394,7 +403,10 @@ class KeywordImpl(object):
     def query(self, via_object, q):
         idx = self.idx
         op = q[0]
-        arg = self.kw(q[1]) if op in ("eq", "noteq") else [self.kw(c) for c in q[1:]]
+        # "an iterable of keywords": list, tuple, set, frozenset, dict keys view and the one-shot kinds (generator,
+        # iterator, map), decided by a hash of the command (props/c01.py): the model sees the members
+        arg = self.kw(q[1]) if op in ("eq", "noteq") else \
+            c01.as_iterable(c01.shape_of([via_object] + list(q)), [self.kw(c) for c in q[1:]])
         if via_object:
             rs = getattr(idx, op)(arg).execute(optimize=self.opt)
             ids = list(rs.ids)
@@ -413,12 +425,15 @@ class KeywordImpl(object):
             return self.idx.apply(ks)
         if form == "t":
             return self.idx.apply(tuple(ks))
+        it = c01.as_iterable(c01.shape_of([form, kind] + list(args)), ks)
+        if form == "i":
+            return self.idx.apply(it)
         if form == "d":
-            return self.idx.apply({"query": ks})
+            return self.idx.apply({"query": it})
         if form == "da":
-            return self.idx.apply({"query": ks, "operator": "and"})
+            return self.idx.apply({"query": it, "operator": "and"})
         if form == "do":
-            return self.idx.apply({"query": ks, "operator": "or"})
+            return self.idx.apply({"query": it, "operator": "or"})
         raise ValueError(form)
 
     def obs(self):
@@ -561,6 +576,8 @@ def features(case, outs):
     for c, o in zip(case["cmds"], outs):
         if c[0] == "qa":
             f.append("apply:%s:%s:%s" % (c[1], c[2], "empty" if o == "{}" else "nonempty" if o.startswith("{") else o))
+            if c[1] in ("i", "d", "da", "do"):
+                f.append("apply-arg:" + c01.shape_of(list(c[1:])))
         elif c[0] == "obs":
             f.append("obs-twice" if prev_cmd == ["obs"] else "obs")
         prev_cmd = c
@@ -569,6 +586,8 @@ def features(case, outs):
                                                                    "dup" if len(set(c[2:])) < len(c) - 2 else "")
             f.append("%s:%s%s:%s" % (c[0], c[1], shape,
                                      "empty" if o == "{}" else "nonempty" if o.startswith("{") else o))
+            if c[1] not in ("eq", "noteq"):
+                f.append("query-arg:%s:%s" % (c[1], c01.shape_of([c[0] == "qx"] + list(c[1:]))))
         elif c[0] in ("index", "reindex"):
             prev = cur.get(c[1], "unknown")
             if c[2:] == ["none"]:
